@@ -276,6 +276,18 @@ func runAll(c *run.Ctx) {
 			// the centre / origin itself
 			checkPoint(k, cf, cf.centre, true)
 			trueScale(k, cf)
+			// the neighbourhood of the centre, where the inverse formulas have their removable
+			// singularity: 8 directions at 1e-1 ... 1e-8 degrees
+			for e := 1; e <= 8; e++ {
+				d := math.Pow(10, -float64(e))
+				for _, dir := range [][2]float64{{1, 0}, {-1, 0}, {0, 1}, {0, -1}, {1, 2}, {-2, 1}, {-1, -1}, {2, -1}} {
+					q := geom.XY{X: cf.centre.X + dir[0]*d, Y: cf.centre.Y + dir[1]*d}
+					if inDomain(cf, q) {
+						checkPoint(k, cf, q, false)
+						k.Count("near_centre_points", 1)
+					}
+				}
+			}
 			for lon := -180.0 + gstep/2; lon < 180; lon += gstep {
 				for lat := -85.0; lat <= 85; lat += gstep {
 					q := geom.XY{X: cf.centre.X + lon, Y: lat}
